@@ -1031,6 +1031,25 @@ def np_sum(ctx: Ctx, a, axis=None):
                 )
             )
             return Arr((other,), lambda jj: cnt(T.tz(jj)), "int")
+    if axis is None and a.ndim == 1 and a.dtype == "int" and getattr(ctx, "prefix_sums", False):
+        # opt-in per contract: the sum of an integer sequence as the value of its prefix-sum function, which is DEFINED
+        # by ps(0) = 0, ps(k + 1) = ps(k) + a[k] (a specification-level definition, not an assumption about NumPy)
+        a_s = snap(a)
+        n = a_s.shape[0]
+        ps = T.fresh_fun("psum", I, I)
+        k = T.fresh_int("k")
+        ctx.assume(ps(0) == 0)
+        ctx.assume(T.ForAll([k], z3.Implies(z3.And(0 <= k, T.lt(k, n)), ps(k + 1) == ps(k) + T.tz(a_s.fn(k))), [ps(k + 1)]))
+        # lemma L9 (by induction on k, assumed): prefix sums of non-negative numbers are non-negative and monotone.
+        # Skolemised: either some entry is negative, or the two facts hold
+        w, j = T.fresh_int("wneg"), T.fresh_int("j")
+        ctx.assume(
+            z3.Or(z3.And(0 <= w, T.lt(w, n), T.tz(a_s.fn(w)) < 0),
+                  z3.And(T.ForAll([k], z3.Implies(z3.And(0 <= k, T.le(k, n)), ps(k) >= 0), [ps(k)]),
+                         T.ForAll([j, k], z3.Implies(z3.And(0 <= j, j <= k, T.le(k, n)), ps(j) <= ps(k)), [[ps(j), ps(k)]]))),
+            trusted="lemma:L9 prefix sums of non-negative integers are non-negative and monotone (induction, assumed)")
+        ctx.log_ghost("sum", dict(ps=ps, src=a_s, n=n))
+        return ps(T.tz(n))
     # general sums are outside the linear fragment: the value is left unconstrained
     ctx.dropped.add("np.sum over numeric values: result unconstrained (havoc)")
     if axis is None:
